@@ -15,7 +15,7 @@
    both cases are theorems below ([supported]). *)
 From Coq Require Import List ZArith Bool String Arith Lia.
 From Shoot Require Import Base.Str Model.Transfer Model.MapVal Model.Mapper Proofs.MapperProofs
-     Proofs.MapperCtorProofs Bridge.GoPrims Bridge.MapCtorPrims.
+     Proofs.MapperFlattenProofs Proofs.MapperCtorProofs Bridge.GoPrims Bridge.MapCtorPrims.
 From ShootGen Require Import MapCtorGen.
 Import ListNotations.
 Local Open Scope string_scope.
@@ -32,6 +32,9 @@ Proof. revert i. induction l as [|x l IH]; intros [|i]; simpl; auto. rewrite IH.
 
 Lemma upd_middle {A} (pre : list A) x r g : upd (pre ++ x :: r) (List.length pre) g = pre ++ g x :: r.
 Proof. induction pre as [|y pre IH]; simpl; auto. rewrite IH. reflexivity. Qed.
+
+Lemma fold_left_ext_pair {A B} (f g : A -> B -> A) l a : (forall x y, f x y = g x y) -> fold_left f l a = fold_left g l a.
+Proof. intros H. revert a. induction l as [|x l IH]; intros a; simpl; auto. rewrite H. apply IH. Qed.
 
 (* the direction: [SD] the destination constructor is fed from the source fields
    (first call), [SS] the source constructor from the destination fields (second call) *)
@@ -205,4 +208,299 @@ Proof.
         exists w'; (split; [exact E1|]); (split; [exact E2|exact E3]).
 Qed.
 
+(* ---- every reader: the double fold of the model *)
+Lemma loop1_is_model : forall ef tm ks h is s (w : cworld),
+  exists w1, makeCtorMatch_loop1 TE CV IS IF zv ef (map (ploc s) ks) tm (wref s) h (map (rloc s) is) w
+             = makeCtorMatch_loop2 zv ef (map (ploc s) ks) tm (wref s) (map (ploc s) ks) h w1
+             /\ (pars s w1, wset s w1)
+                = fold_left (fun acc fi => fold_left (step_of tm s w fi) ks acc) is (pars s w, wset s w)
+             /\ others s w1 = others s w.
+Proof.
+  intros ef tm ks h. induction is as [|fi is IH]; intros s w.
+  - exists w. cbn. auto.
+  - cbn [map makeCtorMatch_loop1 fold_left].
+    destruct (loop3_is_model ef (map (ploc s) ks) tm ks s fi w) as (w2 & A1 & A2 & A3). rewrite A1.
+    destruct (IH s w2) as (w1 & B1 & B2 & B3). exists w1. split; [exact B1|].
+    rewrite <- A2. split; [|congruence].
+    rewrite B2. apply fold_left_ext_pair. intros acc fi'. unfold step_of.
+    assert (X : cf_ic (c_flags w2) = cf_ic (c_flags w) /\ c_funcs w2 = c_funcs w /\ readers s w2 = readers s w).
+    { destruct s; unfold others in A3; cbn [readers]; inversion A3; repeat split; congruence. }
+    destruct X as (X1 & X2 & X3). rewrite X1, X2, X3. reflexivity.
+Qed.
+
+(* ---- the zero-value loop.  [supported]: every parameter left without a value has a zero literal *)
+Definition has_target (p : field) : bool := match f_target p with Some _ => true | None => false end.
+Definition zfix (p : field) : field := match f_target p with Some _ => p | None => set_zero p end.
+Definition supported (ps : list field) : bool :=
+  forallb (fun p => match f_target p with Some _ => true | None => negb (String.eqb (zv (f_ty p)) "") end) ps.
+
+Lemma get_Target_ploc s k w : get_Target (ploc s k) w = f_target (nth k (pars s w) fdummy).
+Proof. destruct s; reflexivity. Qed.
+Lemma get_typ_ploc s k w : get_typ (ploc s k) w = f_ty (nth k (pars s w) fdummy).
+Proof. destruct s; reflexivity. Qed.
+Lemma set_Zero_ploc s k z w :
+  pars s (set_Zero (ploc s k) z w) = upd (pars s w) k (fset_zero z)
+  /\ wset s (set_Zero (ploc s k) z w) = wset s w /\ others s (set_Zero (ploc s k) z w) = others s w
+  /\ c_warned (set_Zero (ploc s k) z w) = c_warned w.
+Proof. destruct s; repeat split; reflexivity. Qed.
+
+Lemma seq_snoc_len {A} (pre : list A) (x : A) : S (List.length pre) = List.length (pre ++ [x]).
+Proof. rewrite app_length. cbn. lia. Qed.
+
+Lemma loop2_returns : forall ef cp tm s suf pre h (w : cworld),
+  pars s w = pre ++ suf -> supported suf = true ->
+  exists w', makeCtorMatch_loop2 zv ef cp tm (wref s) (map (ploc s) (seq (List.length pre) (List.length suf))) h w
+             = (Returned (h || existsb has_target suf), w')
+             /\ pars s w' = pre ++ map zfix suf /\ wset s w' = wset s w /\ others s w' = others s w
+             /\ c_warned w' = c_warned w.
+Proof.
+  intros ef cp tm s. induction suf as [|p suf IH]; intros pre h w P S.
+  - exists w. cbn. rewrite orb_false_r. auto.
+  - cbn [List.length seq map makeCtorMatch_loop2].
+    rewrite get_Target_ploc, get_typ_ploc, P, nth_middle.
+    cbn [supported forallb] in S. apply andb_true_iff in S. destruct S as [S1 S2]. fold (supported suf) in S2.
+    cbn [existsb map]. unfold has_target at 1, zfix at 1.
+    destruct (f_target p) eqn:T; cbn [is_nil negb].
+    + rewrite (seq_snoc_len pre p).
+      destruct (IH (pre ++ [p]) true w) as (w' & E1 & E2 & E3 & E4 & E5); [rewrite <- app_assoc; exact P|exact S2|].
+      exists w'. rewrite E1, E2, <- app_assoc, orb_true_r. cbn. auto.
+    + apply negb_true_iff in S1. rewrite S1.
+      destruct (set_Zero_ploc s (List.length pre) (zv (f_ty p)) w) as (Z1 & Z2 & Z3 & Z4).
+      rewrite (seq_snoc_len pre (set_zero p)).
+      destruct (IH (pre ++ [set_zero p]) h (set_Zero (ploc s (List.length pre)) (zv (f_ty p)) w)) as (w' & E1 & E2 & E3 & E4 & E5);
+        [|exact S2|].
+      { rewrite Z1, P, upd_middle, <- app_assoc. cbn. unfold fset_zero, set_zero. rewrite S1. reflexivity. }
+      exists w'. rewrite E1, E2, E3, E4, E5, <- app_assoc. cbn. auto.
+Qed.
+
+(* the source stops (logx.Fatal) exactly when a parameter without a value has no zero literal *)
+Lemma loop2_panics : forall ef cp tm s suf pre h (w : cworld),
+  pars s w = pre ++ suf -> supported suf = false ->
+  exists w', makeCtorMatch_loop2 zv ef cp tm (wref s) (map (ploc s) (seq (List.length pre) (List.length suf))) h w
+             = (Panicked (PErrorf "not supported" 0), w').
+Proof.
+  intros ef cp tm s. induction suf as [|p suf IH]; intros pre h w P S.
+  - discriminate S.
+  - cbn [List.length seq map makeCtorMatch_loop2].
+    rewrite get_Target_ploc, get_typ_ploc, P, nth_middle.
+    cbn [supported forallb] in S. fold (supported suf) in S.
+    destruct (f_target p) eqn:T; cbn [is_nil negb andb] in *.
+    + rewrite (seq_snoc_len pre p). apply IH; [rewrite <- app_assoc; exact P|exact S].
+    + destruct (String.eqb (zv (f_ty p)) "") eqn:Z; cbn [negb andb] in S.
+      * eexists. reflexivity.
+      * destruct (set_Zero_ploc s (List.length pre) (zv (f_ty p)) w) as (Z1 & Z2 & Z3 & Z4).
+        rewrite (seq_snoc_len pre (set_zero p)). apply IH; [|exact S].
+        rewrite Z1, P, upd_middle, <- app_assoc. cbn. unfold fset_zero, set_zero. rewrite Z. reflexivity.
+Qed.
+
+Lemma supported_zfix ps : supported (map zfix ps) = supported ps.
+Proof.
+  induction ps as [|p ps IH]; [reflexivity|]. cbn [map supported forallb]. fold (supported (map zfix ps)) (supported ps).
+  rewrite IH. unfold zfix. destruct (f_target p) eqn:T; [rewrite T; reflexivity|]. cbn. rewrite T. reflexivity.
+Qed.
+
+(* the model's loops keep the number of parameters *)
+Lemma ctor_func_loop_length fns : forall fi ft pt pn k acc,
+  List.length (fst (ctor_func_loop fns fi ft pt pn k acc)) = List.length (fst acc).
+Proof.
+  induction fns as [|fn fns IH]; intros; cbn [ctor_func_loop]; [reflexivity|].
+  rewrite IH. destruct (_ && _); cbn [fst]; [apply upd_length|reflexivity].
+Qed.
+Lemma ctor_step_length tm ic fns rs fi k acc :
+  List.length (fst (ctor_step e tm ic fns rs fi k acc)) = List.length (fst acc).
+Proof.
+  unfold ctor_step.
+  repeat match goal with
+         | |- context [if ?b then _ else _] => destruct b
+         | |- context [let '(_, _) := ?x in _] => destruct x
+         end; cbn [fst]; rewrite ?ctor_func_loop_length; cbn [fst]; rewrite ?upd_length; reflexivity.
+Qed.
+Lemma ctor_fold_length tm ic fns rs ks : forall is acc,
+  List.length (fst (fold_left (fun acc fi => fold_left (fun acc k => ctor_step e tm ic fns rs fi k acc) ks acc) is acc))
+  = List.length (fst acc).
+Proof.
+  assert (I : forall fi ks' acc, List.length (fst (fold_left (fun acc k => ctor_step e tm ic fns rs fi k acc) ks' acc)) = List.length (fst acc)).
+  { intros fi ks'. induction ks' as [|k ks' IH]; intros acc; cbn [fold_left]; [reflexivity|]. rewrite IH. apply ctor_step_length. }
+  induction is as [|fi is IH]; intros acc; cbn [fold_left]; [reflexivity|]. rewrite IH. apply I.
+Qed.
+
+(* ---- makeCtorMatch IS make_ctor_match, for either direction, on every state *)
+Definition locs_r (s : side) (w : cworld) := map (rloc s) (seq 0 (List.length (readers s w))).
+Definition locs_p (s : side) (w : cworld) := map (ploc s) (seq 0 (List.length (pars s w))).
+Definition model_of (s : side) (tm : tagmap) (w : cworld) :=
+  make_ctor_match e tm (cf_ic (c_flags w)) (c_funcs w) (readers s w) (pars s w) (wset s w).
+
+(* the test for an empty parameter list, however it is written: decided on a list that has an element *)
+Ltac nonempty_params P :=
+  match goal with |- context [if ?c then _ else _] =>
+    let C := fresh "C" in
+    assert (C : c = false)
+      by (rewrite map_length, seq_length, P; cbn [List.length];
+          first [ apply Z.eqb_neq | apply Z.ltb_ge | apply Z.leb_gt | apply Z.gtb_ltb | reflexivity ]; lia);
+    rewrite C; clear C
+  end.
+
+Theorem makeCtorMatch_is_model : forall s tm (w : cworld),
+  supported (fst (fst (model_of s tm w))) = true ->
+  exists w', makeCtorMatch TE CV IS IF zv (locs_r s w) (locs_p s w) tm (wref s) w = (Returned (snd (model_of s tm w)), w')
+             /\ pars s w' = fst (fst (model_of s tm w)) /\ wset s w' = snd (fst (model_of s tm w))
+             /\ others s w' = others s w.
+Proof.
+  intros s tm w. unfold model_of, make_ctor_match, makeCtorMatch, locs_r, locs_p.
+  destruct (pars s w) as [|p0 ps0] eqn:P.
+  - intros _. exists w. cbn. rewrite P. auto.
+  - rewrite <- P. intros S.
+    nonempty_params P.
+    destruct (loop1_is_model (map (rloc s) (seq 0 (List.length (readers s w)))) tm (seq 0 (List.length (pars s w))) false
+                             (seq 0 (List.length (readers s w))) s w) as (w1 & A1 & A2 & A3).
+    rewrite A1. unfold step_of in A2. rewrite <- A2 in *. cbn [fst snd] in *.
+    rewrite supported_zfix in S.
+    assert (L : List.length (pars s w) = List.length (pars s w1)).
+    { change (pars s w1) with (fst (pars s w1, wset s w1)). rewrite A2, ctor_fold_length. reflexivity. }
+    rewrite L.
+    destruct (loop2_returns (map (rloc s) (seq 0 (List.length (readers s w)))) (map (ploc s) (seq 0 (List.length (pars s w1)))) tm s
+                            (pars s w1) [] false w1 eq_refl S) as (w' & E1 & E2 & E3 & E4 & E5).
+    exists w'. cbn [List.length app orb] in E1, E2. split; [exact E1|]. split; [exact E2|]. split; [exact E3|congruence].
+Qed.
+
+(* ... and when a parameter without a value has no zero literal (the model is total there:
+   docs/C15.md, assumption on alias types) the source stops in logx.Fatal *)
+Theorem makeCtorMatch_unsupported_panics : forall s tm (w : cworld),
+  supported (fst (fst (model_of s tm w))) = false ->
+  exists w', makeCtorMatch TE CV IS IF zv (locs_r s w) (locs_p s w) tm (wref s) w = (Panicked (PErrorf "not supported" 0), w').
+Proof.
+  intros s tm w. unfold model_of, make_ctor_match, makeCtorMatch, locs_r, locs_p.
+  destruct (pars s w) as [|p0 ps0] eqn:P.
+  - cbn. discriminate.
+  - rewrite <- P. intros S.
+    nonempty_params P.
+    destruct (loop1_is_model (map (rloc s) (seq 0 (List.length (readers s w)))) tm (seq 0 (List.length (pars s w))) false
+                             (seq 0 (List.length (readers s w))) s w) as (w1 & A1 & A2 & A3).
+    rewrite A1. unfold step_of in A2. rewrite <- A2 in *. cbn [fst snd] in *.
+    rewrite supported_zfix in S.
+    assert (L : List.length (pars s w) = List.length (pars s w1)).
+    { change (pars s w1) with (fst (pars s w1, wset s w1)). rewrite A2, ctor_fold_length. reflexivity. }
+    rewrite L.
+    apply (loop2_panics (map (rloc s) (seq 0 (List.length (readers s w)))) (map (ploc s) (seq 0 (List.length (pars s w1)))) tm s
+                        (pars s w1) [] false w1 eq_refl S).
+Qed.
+
+(* ---- the method: the destination constructor from the source fields (with the tag map),
+   then the source constructor from the destination fields (no tag map); the template is
+   told to call a constructor when one of its parameters got a value *)
+Theorem makeCtorMatchBoth_is_model : forall (w : cworld) dctor wdst1 use_d sctor wsrc1 use_s,
+  make_ctor_match e (c_tags w) (cf_ic (c_flags w)) (c_funcs w) (c_src w) (c_dctor w) (c_wdst w) = (dctor, wdst1, use_d) ->
+  make_ctor_match e [] (cf_ic (c_flags w)) (c_funcs w) (c_dst w) (c_sctor w) (c_wsrc w) = (sctor, wsrc1, use_s) ->
+  supported dctor = true -> supported sctor = true ->
+  exists w', makeCtorMatchBoth TE CV IS IF zv w = (Returned tt, w')
+             /\ c_dctor w' = dctor /\ c_wdst w' = wdst1 /\ c_use_d w' = (c_use_d w || use_d)%bool
+             /\ c_sctor w' = sctor /\ c_wsrc w' = wsrc1 /\ c_use_s w' = (c_use_s w || use_s)%bool
+             /\ c_src w' = c_src w /\ c_dst w' = c_dst w
+             /\ c_tags w' = c_tags w /\ c_flags w' = c_flags w /\ c_funcs w' = c_funcs w.
+Proof.
+  intros w dctor wdst1 use_d sctor wsrc1 use_s MD MS SD' SS'.
+  unfold makeCtorMatchBoth.
+  destruct (makeCtorMatch_is_model SD (c_tags w) w) as (w1 & A1 & A2 & A3 & A4).
+  { unfold model_of. cbn [readers pars wset]. rewrite MD. exact SD'. }
+  change (locs_r SD w) with (src_locs w) in A1. change (locs_p SD w) with (dctor_locs w) in A1.
+  unfold model_of in A1, A2, A3. cbn [readers pars wset rloc ploc wref] in A1, A2, A3.
+  rewrite MD in A1, A2, A3. cbn [fst snd] in A1, A2, A3.
+  rewrite A1.
+  unfold others in A4. injection A4 as O1 O2 O3 O4 O5 O6 O7 O8 O9.
+  (* the second call runs in the world the first one left, told or not to use the constructor *)
+  assert (K : forall w1', w1' = (if use_d then set_dctor_used (dctor_locs w1) w1 else w1) ->
+              c_src w1' = c_src w /\ c_dst w1' = c_dst w /\ c_dctor w1' = dctor /\ c_sctor w1' = c_sctor w
+              /\ c_wsrc w1' = c_wsrc w /\ c_wdst w1' = wdst1 /\ c_tags w1' = c_tags w /\ c_flags w1' = c_flags w
+              /\ c_funcs w1' = c_funcs w /\ c_use_d w1' = (c_use_d w || use_d)%bool /\ c_use_s w1' = c_use_s w).
+  { intros w1' ->. destruct use_d; cbn; rewrite ?orb_true_r, ?orb_false_r; auto 12. }
+  destruct use_d; cbv beta zeta;
+    match goal with |- context [makeCtorMatch _ _ _ _ _ (dst_locs ?W) _ _ _ ?W] =>
+      destruct (K W eq_refl) as (K1 & K2 & K3 & K4 & K5 & K6 & K7 & K8 & K9 & K10 & K11);
+      destruct (makeCtorMatch_is_model SS [] W) as (w2 & B1 & B2 & B3 & B4);
+      [ unfold model_of; cbn [readers pars wset]; rewrite K2, K4, K5, K8, K9, MS; exact SS' |];
+      change (locs_r SS W) with (dst_locs W) in B1; change (locs_p SS W) with (sctor_locs W) in B1;
+      unfold model_of in B1, B2, B3; cbn [readers pars wset rloc ploc wref] in B1, B2, B3;
+      rewrite K2, K4, K5, K8, K9, MS in B1, B2, B3; cbn [fst snd] in B1, B2, B3
+    end;
+    unfold nil_tags; rewrite B1;
+    unfold others in B4; injection B4 as P1 P2 P3 P4 P5 P6 P7 P8 P9;
+    destruct use_s; (eexists; split; [reflexivity|]);
+    cbn; rewrite ?orb_true_r, ?orb_false_r in K10; repeat split; rewrite ?orb_true_r, ?orb_false_r; congruence.
+Qed.
+
+(* ---- C15 over the translated source *)
+
+(* make_ctor_match_ok (Proofs/MapperCtorProofs.v) of what the SOURCE leaves in the parameters:
+   every parameter either carries a value from a readable, name-matching field under exactly one
+   applicable strategy, with its name in the write set, or is passed its zero value *)
+Theorem C15_ctor_pass_src : forall s tm (w : cworld),
+  (forall fn, In fn (c_funcs w) -> mf_name fn <> "") ->
+  (forall p, In p (pars s w) -> fresh p /\ f_zero p = false /\ f_canmap p = false /\ f_caneach p = false) ->
+  supported (fst (fst (model_of s tm w))) = true ->
+  exists h w', makeCtorMatch TE CV IS IF zv (locs_r s w) (locs_p s w) tm (wref s) w = (Returned h, w')
+    /\ List.length (pars s w') = List.length (pars s w)
+    /\ (forall j, j < List.length (pars s w') -> core_eq (rd (pars s w) j) (rd (pars s w') j))
+    /\ (forall x, s_has (wset s w) x = true -> s_has (wset s w') x = true)
+    /\ (pars s w <> [] -> forall j, j < List.length (pars s w') ->
+          pfinal e tm (cf_ic (c_flags w)) (c_funcs w) (readers s w) (wset s w') (rd (pars s w') j))
+    /\ others s w' = others s w.
+Proof.
+  intros s tm w FN FR S.
+  destruct (makeCtorMatch_is_model s tm w S) as (w' & A1 & A2 & A3 & A4).
+  exists (snd (model_of s tm w)), w'. split; [exact A1|].
+  unfold model_of in A2, A3.
+  destruct (make_ctor_match e tm (cf_ic (c_flags w)) (c_funcs w) (readers s w) (pars s w) (wset s w)) as [[ps' ws'] h] eqn:M.
+  cbn [fst snd] in A2, A3. rewrite A2, A3.
+  destruct (make_ctor_match_ok _ _ _ _ _ _ _ _ _ _ FN FR M) as (L & C & Mo & P).
+  auto 8.
+Qed.
+
+(* the model's [prepare] up to makeCtorMatch, executed by the translated method: a world holding
+   what prepare hands to make_ctor_match ends in prepare's answer *)
+Definition manual_wdst (jb : job) : sset := match j_manual_to jb with Some ns => rev ns | None => [] end.
+Definition manual_wsrc (jb : job) : sset :=
+  match j_manual_from jb with Some ns => rev (map (manual_src_name (j_src_shootnew jb)) ns) | None => [] end.
+Definition prepared (jb : job) (pr : prep) (w : cworld) : Prop :=
+  c_src w = s_src (pr_s0 pr) /\ c_dst w = s_dst (pr_s0 pr)
+  /\ c_dctor w = map ctor_field (j_dst_ctor jb) /\ c_sctor w = map ctor_field (j_src_ctor jb)
+  /\ c_wdst w = manual_wdst jb /\ c_wsrc w = manual_wsrc jb
+  /\ c_tags w = p_tags (pr_src pr) /\ cf_ic (c_flags w) = j_ic jb /\ c_funcs w = j_funcs jb
+  /\ c_use_d w = false /\ c_use_s w = false.
+
+Theorem C15_prepare_src : forall jb pr (w : cworld),
+  j_env jb = e -> prepare jb = Some pr -> prepared jb pr w ->
+  supported (pr_dctor pr) = true -> supported (pr_sctor pr) = true ->
+  exists w', makeCtorMatchBoth TE CV IS IF zv w = (Returned tt, w')
+             /\ c_dctor w' = pr_dctor pr /\ c_sctor w' = pr_sctor pr
+             /\ c_wdst w' = s_wdst (pr_s0 pr) /\ c_wsrc w' = s_wsrc (pr_s0 pr)
+             /\ c_use_d w' = pr_use_d pr /\ c_use_s w' = pr_use_s pr
+             /\ c_src w' = s_src (pr_s0 pr) /\ c_dst w' = s_dst (pr_s0 pr).
+Proof.
+  intros jb pr w Ee H (Q1 & Q2 & Q3 & Q4 & Q5 & Q6 & Q7 & Q8 & Q9 & Q10 & Q11) SD' SS'.
+  unfold prepare in H. rewrite Ee in H.
+  destruct (parse_fields e (j_fuel jb) PSrc (j_src jb) true) as [ps|]; [|discriminate].
+  destruct (parse_fields e (j_fuel jb) PDst (j_dst jb) false) as [pd|]; [|discriminate].
+  fold (manual_wdst jb) (manual_wsrc jb) in H.
+  match type of H with context [make_ctor_match e (p_tags ps) ?c ?d ?x ?y ?z] =>
+    destruct (make_ctor_match e (p_tags ps) c d x y z) as [[dctor wdst1] use_d] eqn:MD end.
+  match type of H with context [make_ctor_match e [] ?c ?d ?x ?y ?z] =>
+    destruct (make_ctor_match e [] c d x y z) as [[sctor wsrc1] use_s] eqn:MS end.
+  inversion H; subst pr; clear H. cbn [pr_s0 pr_src pr_dctor pr_sctor pr_use_d pr_use_s s_src s_dst s_wsrc s_wdst] in *.
+  destruct (makeCtorMatchBoth_is_model w dctor wdst1 use_d sctor wsrc1 use_s) as (w' & R);
+    [rewrite Q1, Q3, Q5, Q7, Q8, Q9; exact MD | rewrite Q2, Q4, Q6, Q8, Q9; exact MS | exact SD' | exact SS' |].
+  destruct R as (R0 & R1 & R2 & R3 & R4 & R5 & R6 & R7 & R8 & _).
+  exists w'. rewrite Q10 in R3. rewrite Q11 in R6. cbn [orb] in R3, R6. rewrite R7, R8. auto 10.
+Qed.
+
 End Bridge.
+
+Print Assumptions MatchingName_is_model.
+Print Assumptions matchType_is_model.
+Print Assumptions canNameMatch_is_model.
+Print Assumptions loop4_is_model.
+Print Assumptions loop3_is_model.
+Print Assumptions makeCtorMatch_is_model.
+Print Assumptions makeCtorMatch_unsupported_panics.
+Print Assumptions makeCtorMatchBoth_is_model.
+Print Assumptions C15_ctor_pass_src.
+Print Assumptions C15_prepare_src.
